@@ -11,6 +11,6 @@ rsync -a --delete --exclude out --exclude .git /verif/ $L/verif/
 mkdir -p $L/verif/out
 (cd $L/verif && VERIF_REPO=$L/repo "$@")
 rc=$?
-rsync -a $L/verif/benign/ /verif/benign/ 2>/dev/null
-for m in $L/verif/seeded/*/meta.json; do d=$(basename $(dirname $m)); cp $m /verif/seeded/$d/meta.json; done
+rsync -a --update $L/verif/benign/ /verif/benign/ 2>/dev/null
+for m in $L/verif/seeded/*/meta.json; do d=$(basename $(dirname $m)); cp -u $m /verif/seeded/$d/meta.json; done
 exit $rc
